@@ -20,6 +20,7 @@ import (
 	"sort"
 	"strconv"
 	"sync"
+	"sync/atomic"
 	"testing"
 	"time"
 
@@ -35,6 +36,7 @@ type c04In struct {
 	Every  int     `json:"every"`            // crash after every Every-th action (1 = all)
 	Off    int     `json:"off"`              // ... starting at this one
 	Points []int   `json:"points,omitempty"` // explicit crash points (number of actions before the crash); overrides Every/Off
+	Unlocker []int `json:"unlocker,omitempty"` // ids whose handlers release the state lock through st.Unlocker() instead of Unlock()
 }
 
 type c04Backend struct {
@@ -73,11 +75,24 @@ type c04World struct {
 	undo    map[int]int
 	acts    []c04Action
 	points  []int // points[k] = index of the last payload after k+1 actions
+	phase   map[int]string   // the step key the running handler of a task has recorded ("did" / "undid")
+	recAt   [][][2]string    // recAt[k] = (id, key) of the handlers blocked in their unlocked section after k+1 actions
+	rels    []c04Release     // one per handler start: what it recorded and the last payload at the moment it had released the lock
+}
+
+type c04Release struct {
+	ID      string
+	Key     string
+	Payload int
 }
 
 func c04NewWorld(in c04In, st *State, be *c04Backend) *c04World {
 	w := &c04World{in: in, n: len(in.Waits), st: st, be: be, gates: map[int]chan struct{}{}, started: make(chan int, 64),
-		do: map[int]int{}, undo: map[int]int{}}
+		do: map[int]int{}, undo: map[int]int{}, phase: map[int]string{}}
+	viaUnlocker := map[int]bool{}
+	for _, u := range in.Unlocker {
+		viaUnlocker[u] = true
+	}
 	fail := map[int]bool{}
 	for _, f := range in.Fail {
 		fail[f] = true
@@ -92,14 +107,31 @@ func c04NewWorld(in c04In, st *State, be *c04Backend) *c04World {
 			} else {
 				w.do[id]++
 			}
+			key := "did"
+			if isUndo {
+				key = "undid"
+			}
 			w.gates[id] = ch
+			w.phase[id] = key
 			w.mu.Unlock()
-			// a state modification inside the handler: a checkpoint while the task is Doing/Undoing
+			// the handler records its step in the state and releases the lock - through Unlock or through the second
+			// release path, Unlocker - before its slow part (here: waiting for the gate). A crash in that unlocked section
+			// must find the step in the last payload.
 			st.Lock()
-			t.Set("touched", true)
-			st.Unlock()
-			w.started <- id
-			<-ch
+			t.Set(key, true)
+			if viaUnlocker[id] {
+				relock := st.Unlocker()()
+				w.released(t.ID(), key)
+				w.started <- id
+				<-ch
+				relock()
+				st.Unlock()
+			} else {
+				st.Unlock()
+				w.released(t.ID(), key)
+				w.started <- id
+				<-ch
+			}
 			if !isUndo && fail[id] {
 				return errors.New("boom")
 			}
@@ -110,6 +142,14 @@ func c04NewWorld(in c04In, st *State, be *c04Backend) *c04World {
 	w.r.AddHandler("u", handler(false), handler(true))
 	w.r.AddHandler("n", handler(false), nil)
 	return w
+}
+
+// called by a handler right after it has released the state lock: a crash now finds the payload be.count()-1
+func (w *c04World) released(id, key string) {
+	idx := w.be.count() - 1
+	w.mu.Lock()
+	w.rels = append(w.rels, c04Release{id, key, idx})
+	w.mu.Unlock()
 }
 
 func c04Build(in c04In) (*State, *c04Backend) {
@@ -206,6 +246,13 @@ func (w *c04World) act(a c04Action) {
 	}
 	w.acts = append(w.acts, a)
 	w.points = append(w.points, w.be.count()-1)
+	var rec [][2]string
+	w.mu.Lock()
+	for _, id := range w.running {
+		rec = append(rec, [2]string{strconv.Itoa(id), w.phase[id]})
+	}
+	w.mu.Unlock()
+	w.recAt = append(w.recAt, rec)
 }
 
 // the policy: E, then every running handler returns, oldest start first; until nothing moves
@@ -255,6 +302,8 @@ type c04Restart struct {
 	Diff     []int    `json:"diff,omitempty"`     // ids whose final status differs between restart and baseline run
 	InAbort  []int    `json:"in_abort,omitempty"` // ids persisted in Abort at the crash point
 	Class    string   `json:"class"`              // same | abort-only | other  (used by classify only)
+	Recorded  []int   `json:"recorded"`           // handlers blocked in their unlocked section at the crash point
+	Persisted []int   `json:"persisted"`          // ... whose recorded step is in the last payload
 }
 
 func c04Lookup(l [][2]int, id int) int {
@@ -301,6 +350,14 @@ func c04Exec(in c04In) vh.Out {
 			panic(err)
 		}
 		payload := c04Statuses(st2)
+		var recorded, persisted []int
+		for _, rk := range w.recAt[j-1] {
+			id, _ := strconv.Atoi(rk[0])
+			recorded = append(recorded, id)
+			if t := st2.tasks[rk[0]]; t != nil && t.data[rk[1]] != nil {
+				persisted = append(persisted, id)
+			}
+		}
 		w2 := c04NewWorld(in, st2, be2)
 		w2.settle()
 		finR := c04Statuses(st2)
@@ -313,8 +370,12 @@ func c04Exec(in c04In) vh.Out {
 		w3.settle()
 		finB := c04Statuses(st3)
 
-		r := c04Restart{J: j, Payload: payload, FinalR: finR, FinalB: finB, Dos: c04CountPairs(n, w2.do), Undos: c04CountPairs(n, w2.undo)}
-		other := len(payload) != n
+		r := c04Restart{J: j, Payload: payload, FinalR: finR, FinalB: finB, Dos: c04CountPairs(n, w2.do), Undos: c04CountPairs(n, w2.undo),
+			Recorded: recorded, Persisted: persisted}
+		other := len(payload) != n || len(persisted) != len(recorded)
+		if len(persisted) != len(recorded) {
+			tags["recorded-step-missing-from-last-payload"] = true
+		}
 		for id := 1; id <= n; id++ {
 			ps := c04Lookup(payload, id)
 			if ps == 5 {
@@ -342,7 +403,7 @@ func c04Exec(in c04In) vh.Out {
 			r.Class = "same"
 		}
 		rs = append(rs, r)
-		items = append(items, "(RObs "+vh.CoqNat(j)+" "+c04Pairs(r.Payload)+" "+c04Pairs(r.FinalR)+" "+c04Pairs(r.FinalB)+" "+c04Pairs(r.Dos)+" "+c04Pairs(r.Undos)+")")
+		items = append(items, "(RObs "+vh.CoqNat(j)+" "+c04Pairs(r.Payload)+" "+c04Pairs(r.FinalR)+" "+c04Pairs(r.FinalB)+" "+c04Pairs(r.Dos)+" "+c04Pairs(r.Undos)+" "+c04NL(recorded)+" "+c04NL(persisted)+")")
 		for _, p := range payload {
 			switch p[1] {
 			case 3:
@@ -355,6 +416,34 @@ func c04Exec(in c04In) vh.Out {
 				tags["restart-with-task-in-abort"] = true
 			}
 		}
+	}
+	// every handler start of the run without restart: is the step it recorded in the payload a crash would have found right
+	// after it released the lock?
+	var relItems []string
+	var relObs [][2]interface{}
+	w.mu.Lock()
+	rels := append([]c04Release(nil), w.rels...)
+	w.mu.Unlock()
+	sort.Slice(rels, func(i, j int) bool { return rels[i].Payload < rels[j].Payload || (rels[i].Payload == rels[j].Payload && rels[i].ID < rels[j].ID) })
+	for _, rl := range rels {
+		ok := false
+		if rl.Payload >= 0 {
+			var p struct {
+				Tasks map[string]struct {
+					Data map[string]json.RawMessage `json:"data"`
+				} `json:"tasks"`
+			}
+			if err := json.Unmarshal(be.payloads[rl.Payload], &p); err != nil {
+				panic(err)
+			}
+			_, ok = p.Tasks[rl.ID].Data[rl.Key]
+		}
+		if !ok {
+			tags["recorded-step-missing-from-last-payload"] = true
+		}
+		idn, _ := strconv.Atoi(rl.ID)
+		relItems = append(relItems, "("+vh.CoqN(uint64(idn))+", "+vh.CoqBool(ok)+")")
+		relObs = append(relObs, [2]interface{}{rl.ID + ":" + rl.Key + "@payload" + strconv.Itoa(rl.Payload), ok})
 	}
 	var graph, acts []string
 	chain := true
@@ -380,12 +469,15 @@ func c04Exec(in c04In) vh.Out {
 		}
 	}
 	coq := "(Case " + vh.CoqList(graph) + " (mkCfg " + c04NL(in.Fail) + " " + c04NL(in.NoUndo) + ") " + vh.CoqList(acts) + " " +
-		c04Pairs(final) + " " + vh.CoqList(items) + ")"
+		c04Pairs(final) + " " + vh.CoqList(items) + " " + vh.CoqList(relItems) + ")"
 	if len(in.Fail) > 0 {
 		tags["failure"] = true
 	}
 	if len(in.NoUndo) > 0 {
 		tags["no-undo-handler"] = true
+	}
+	if len(in.Unlocker) > 0 {
+		tags["handler-releases-through-Unlocker"] = true
 	}
 	if chain {
 		tags["chain"] = true
@@ -398,7 +490,7 @@ func c04Exec(in c04In) vh.Out {
 		tl = append(tl, t)
 	}
 	sort.Strings(tl)
-	obs := map[string]interface{}{"final": final, "checkpoints": be.count(), "actions": w.acts, "restarts": rs}
+	obs := map[string]interface{}{"final": final, "checkpoints": be.count(), "actions": w.acts, "restarts": rs, "releases": relObs}
 	return vh.Out{Observed: obs, Coq: coq, NonTrivial: tags["restart-while-doing"] || tags["restart-while-undoing"], Tags: tl}
 }
 
@@ -439,6 +531,9 @@ func c04Gen(r *vh.Rand, tier string, n int) []c04In {
 			if r.Chance(1, 4) {
 				in.NoUndo = append(in.NoUndo, j)
 			}
+			if r.Chance(1, 2) {
+				in.Unlocker = append(in.Unlocker, j)
+			}
 		}
 		if r.Chance(2, 3) {
 			in.Fail = append(in.Fail, r.Range(1, nt))
@@ -469,6 +564,7 @@ type c04oIn struct {
 	Cycles   int    `json:"cycles"`
 	Tasks    int    `json:"tasks"`
 	Sleep    uint64 `json:"sleep"` // seed of the per-call write delays
+	Unlockers int   `json:"unlockers"` // the first Unlockers goroutines (and the handlers of odd tasks) release through st.Unlocker()
 }
 
 type c04oBackend struct {
@@ -478,7 +574,14 @@ type c04oBackend struct {
 	calls     int
 	locked    []bool
 	completed []int
+	maxDone   int
 	last      []byte
+}
+
+func (b *c04oBackend) maxCompleted() int {
+	b.mu.Lock()
+	defer b.mu.Unlock()
+	return b.maxDone
 }
 
 type c04oPayload struct {
@@ -527,6 +630,9 @@ func (b *c04oBackend) Checkpoint(d []byte) error {
 	b.mu.Lock()
 	b.locked = append(b.locked, held)
 	b.completed = append(b.completed, seq)
+	if seq > b.maxDone {
+		b.maxDone = seq
+	}
 	b.last = append([]byte(nil), d...)
 	b.mu.Unlock()
 	return nil
@@ -538,9 +644,29 @@ func c04oExec(in c04oIn) vh.Out {
 	st := New(be)
 	be.st = st
 	seq := 0 // guarded by the state lock
-	bump := func() {
+	bump := func() int {
 		seq++
 		st.Set("seq", seq)
+		return seq
+	}
+	var unpersisted int32
+	// modify, release (through Unlock or through Unlocker), then: a completed write must contain the modification
+	cycle := func(viaUnlocker bool) {
+		st.Lock()
+		mine := bump()
+		if viaUnlocker {
+			relock := st.Unlocker()()
+			if be.maxCompleted() < mine {
+				atomic.AddInt32(&unpersisted, 1)
+			}
+			relock()
+			st.Unlock()
+		} else {
+			st.Unlock()
+			if be.maxCompleted() < mine {
+				atomic.AddInt32(&unpersisted, 1)
+			}
+		}
 	}
 	st.Lock()
 	chg := st.NewChange("c", "s")
@@ -557,20 +683,18 @@ func c04oExec(in c04oIn) vh.Out {
 	st.Unlock()
 	r := NewTaskRunner(st)
 	r.AddHandler("k", func(t *Task, _ *tomb.Tomb) error {
-		st.Lock()
-		bump()
-		st.Unlock()
+		id, _ := strconv.Atoi(t.ID())
+		cycle(in.Unlockers > 0 && id%2 == 1)
 		return nil
 	}, nil)
 	var wg sync.WaitGroup
 	for m := 0; m < in.Mutators; m++ {
 		wg.Add(1)
+		via := m < in.Unlockers
 		go func() {
 			defer wg.Done()
 			for i := 0; i < in.Cycles; i++ {
-				st.Lock()
-				bump()
-				st.Unlock()
+				cycle(via)
 			}
 		}()
 	}
@@ -602,7 +726,7 @@ func c04oExec(in c04oIn) vh.Out {
 			outOfOrder++
 		}
 	}
-	coq := "(OCase " + vh.CoqList(lb) + " " + c04NL(completed) + " " + vh.CoqN(uint64(newest)) + " " + c04Pairs(mem) + " " + c04Pairs(lastSts) + ")"
+	coq := "(OCase " + vh.CoqList(lb) + " " + c04NL(completed) + " " + vh.CoqN(uint64(newest)) + " " + c04Pairs(mem) + " " + c04Pairs(lastSts) + " " + vh.CoqN(uint64(unpersisted)) + ")"
 	var tags []string
 	if outOfLock > 0 {
 		tags = append(tags, "checkpoint-written-outside-the-state-lock")
@@ -610,8 +734,14 @@ func c04oExec(in c04oIn) vh.Out {
 	if outOfOrder > 0 {
 		tags = append(tags, "checkpoints-out-of-order")
 	}
+	if unpersisted > 0 {
+		tags = append(tags, "release-without-checkpoint")
+	}
+	if in.Unlockers > 0 {
+		tags = append(tags, "releases-through-Unlocker")
+	}
 	tags = append(tags, "mutators="+strconv.Itoa(in.Mutators))
-	obs := map[string]interface{}{"checkpoints": len(completed), "outside_lock": outOfLock, "out_of_order": outOfOrder,
+	obs := map[string]interface{}{"checkpoints": len(completed), "outside_lock": outOfLock, "out_of_order": outOfOrder, "unpersisted": unpersisted,
 		"completed": completed, "newest": newest, "memory": mem, "last_written": lastSts}
 	return vh.Out{Observed: obs, Coq: coq, NonTrivial: len(completed) > 5, Tags: tags}
 }
@@ -622,7 +752,8 @@ func c04oGen(r *vh.Rand, tier string, n int) []c04oIn {
 	}
 	var ins []c04oIn
 	for i := 0; i < n; i++ {
-		ins = append(ins, c04oIn{Mutators: r.Range(1, 3), Cycles: r.Range(4, 12), Tasks: r.Range(1, 3), Sleep: r.U64() % 100000})
+		m := r.Range(1, 3)
+		ins = append(ins, c04oIn{Mutators: m, Cycles: r.Range(4, 12), Tasks: r.Range(1, 3), Sleep: r.U64() % 100000, Unlockers: r.Intn(m + 1)})
 	}
 	return ins
 }
